@@ -55,6 +55,7 @@ type c09Ep struct {
 	CertReq  bool      `json:"certreq"`            // server target: request (ECC) a client certificate; client target: puppet sends CertificateRequest
 	Ident    string    `json:"ident"`              // the puppet's chain: sm2 | rsa | rsa-sig | rsa-enc | p256 | p256-sig | p256-enc | ed | ed-sig | ed-enc | one | none
 	TIdent   string    `json:"tident,omitempty"`   // the target's own identity ("" = default for its role)
+	Policy   int       `json:"policy,omitempty"`   // server target with CertReq: its ClientAuth policy (0 = RequireAndVerifyClientCert)
 	Foreign  bool      `json:"foreign,omitempty"`  // dtlcp: datagrams starting with 0xFA arrive from another address
 	ReadFrom bool      `json:"readfrom,omitempty"` // dtlcp: the application reads with Conn.ReadFrom
 	Script   []c09Step `json:"script"`
@@ -324,6 +325,9 @@ func c09TargetConfig(in c09Ep) tk.EPConfig {
 		ep = tk.EPConfig{Ident: "srv"}
 		if in.CertReq {
 			ep.Auth = int(tlcp.RequireAndVerifyClientCert)
+			if in.Policy != 0 {
+				ep.Auth = in.Policy
+			}
 		}
 		if puppet.IsECDHE(in.Suite) {
 			ep.Auth = int(tlcp.RequireAndVerifyClientCert)
